@@ -16,6 +16,8 @@ func init() {
 			c11FlagRules(r)
 			ruleLocks(r)
 			ruleNewestFirst(r)
+			// (a map index that answers with another key's entry changes what the stack returns for the key)
+			ruleMapLookupVerified(r)
 			ruleEmptyIsAbsent(r)
 			ruleReaderRebuilt(r)
 			ruleLatestWinsArgmax(r)
